@@ -900,7 +900,9 @@ pub fn c14(eng: &mut Engine, rng: &mut Rng, thorough: bool, out: &mut Out) -> Ca
         }
         // legacy side refusals: registry id without witness, empty values
         let lc = serde_json::to_value(&eng.cast.creds[eng.cast.cred("r1_alice")].cred).unwrap();
-        for (cls, f) in [("regid-without-witness", Box::new(|j: &mut Value| { j["witness"] = Value::Null; }) as Box<dyn Fn(&mut Value)>), ("empty-values", Box::new(|j: &mut Value| { j["values"] = json!({}); })), ("invalid-schema-id", Box::new(|j: &mut Value| { j["schema_id"] = json!("not an id"); }))] {
+        for (cls, f) in [("regid-without-witness", Box::new(|j: &mut Value| { j["witness"] = Value::Null; }) as Box<dyn Fn(&mut Value)>), ("empty-values", Box::new(|j: &mut Value| { j["values"] = json!({}); })), ("invalid-schema-id", Box::new(|j: &mut Value| { j["schema_id"] = json!("not an id"); })),
+            ("invalid-cred-def-id", Box::new(|j: &mut Value| { j["cred_def_id"] = json!("not an id"); })), ("invalid-rev-reg-id", Box::new(|j: &mut Value| { j["rev_reg_id"] = json!("not an id"); })),
+            ("regid-without-rev-reg", Box::new(|j: &mut Value| { j["rev_reg"] = Value::Null; })), ("regid-without-both", Box::new(|j: &mut Value| { j["rev_reg"] = Value::Null; j["witness"] = Value::Null; }))] {
             let mut j = lc.clone();
             f(&mut j);
             if let Ok(c) = serde_json::from_value::<Credential>(j.clone()) {
@@ -952,6 +954,24 @@ fn basic_plan_for(eng: &Engine, held: &str) -> Plan {
 pub fn c11(eng: &mut Engine, rng: &mut Rng, thorough: bool, out: &mut Out) -> Cases {
     let mut cases = vec![];
     let w = eng.cast.w.clone();
+    // request creation itself: entropy / prover DID against the form of the definition id the offer names, through the real
+    // `prover::create_credential_request` (the model's `credReqValid`, op credreq_valid)
+    {
+        let d = w.def("A");
+        let offer0 = serde_json::to_value(issuer::create_credential_offer(d.sid.clone(), d.cid.clone(), &d.kcp).unwrap()).unwrap();
+        for cid in ["NcYxiDXkpYi6ov5FcYDi1e:3:CL:NcYxiDXkpYi6ov5FcYDi1e:2:gvt:1.0:tag", "NcYxiDXkpYi6ov5FcYDi1e:3:CL:12:tag", "did:web:alpha/creddef/gvt", "did:web:x:3:CL:12:tag"] {
+            let mut oj = offer0.clone();
+            oj["cred_def_id"] = json!(cid);
+            let Ok(offer) = serde_json::from_value::<anoncreds::types::CredentialOffer>(oj) else { continue };
+            for e in [None, Some("entropy"), Some("")] {
+                for did in [None, Some("NcYxiDXkpYi6ov5FcYDi1e"), Some("did:web:holder"), Some("garbage did"), Some(""), Some("NcYxiDXkpYi6ov5FcYDi1e0000")] {
+                    let ok = prover::create_credential_request(e, did, &d.cd, &eng.cast.holders[0], "ls", &offer).is_ok();
+                    out.count(&format!("c11:request:{}", if ok { "ok" } else { "refused" }));
+                    cases.push((json!({"op":"credreq_valid","fam":"c11.request","entropy":e,"prover_did":did,"cred_def_id":cid,"nt":true}), json!(ok)));
+                }
+            }
+        }
+    }
     let rounds = if thorough { 30 } else { 2 };
     let mut blinding = 0u64;
     for round in 0..rounds {
@@ -1062,6 +1082,31 @@ pub fn c11(eng: &mut Engine, rng: &mut Rng, thorough: bool, out: &mut Out) -> Ca
                 cases.push((json!({"op":"process","fam":"c11.process","cls":cls,"cd":cdg,"sig":sig,"values":vals_ghost(&credj["values"]),"meta":mg,"holder":h,"nt":true}), json!(ok)));
             };
             process("honest", &cj, sig_ghost(true, &cj["values"]), &meta1, &m1, holder, di, Some(true), out, &mut cases);
+            // "a credential that passes processing always yields verifiable presentations": process the real object, present its first
+            // attribute revealed and its last one unrevealed, verify
+            {
+                let mut c = serde_json::from_value::<Credential>(cj.clone()).unwrap();
+                if prover::process_credential(&mut c, &meta1, &eng.cast.holders[holder], &d.cd, None).is_ok() {
+                    let reqj = json!({"nonce": format!("{}", 1000 + rng.below(1_000_000_000)), "name":"r","version":"1.0","requested_attributes": {"r0": {"name": names[0]}, "u0": {"name": names[names.len() - 1]}}, "requested_predicates": {}});
+                    let preq: PresentationRequest = serde_json::from_value(reqj).unwrap();
+                    let mut pc = PresentCredentials::default();
+                    {
+                        let mut x = pc.add_credential(&c, None, None);
+                        x.add_requested_attribute("r0", true);
+                        x.add_requested_attribute("u0", false);
+                    }
+                    let (schemas, cred_defs) = (w.schemas(), w.cred_defs());
+                    let v = match prover::create_presentation(&preq, pc, None, &eng.cast.holders[holder], &schemas, &cred_defs) {
+                        Ok(p) => verifier::verify_presentation(&p, &preq, &schemas, &cred_defs, None, None, None).unwrap_or(false),
+                        Err(_) => false,
+                    };
+                    out.count(&format!("c11:processed-presented:legacy:{v}"));
+                    out.oracle_only += 1;
+                    if !v {
+                        out.oracle_fail("a credential that passed processing does not yield a verifiable presentation", &json!({"fam":"c11.process","sig":"","cls":"processed-presented"}), &Value::Null);
+                    }
+                }
+            }
             process("other-link-secret", &cj, sig_ghost(true, &cj["values"]), &meta1, &m1, 1 - holder, di, Some(false), out, &mut cases);
             process("other-metadata", &cj, sig_ghost(true, &cj["values"]), &meta2, &m2, holder, di, Some(false), out, &mut cases);
             let oi = eng.cast.def_idx(&other.key);
@@ -1112,7 +1157,21 @@ pub fn c11(eng: &mut Engine, rng: &mut Rng, thorough: bool, out: &mut Out) -> Ca
                 use anoncreds::data_types::w3c::credential_attributes::{CredentialAttributeValue as V, CredentialSubject};
                 use anoncreds::types::{CredentialOffer, CredentialRequest, CredentialRequestMetadata};
                 let subj_for = |ns: &[String]| -> Vec<(String, V)> { ns.iter().enumerate().map(|(i, n)| (n.clone(), if i % 2 == 0 { V::Number(20 + i as i32) } else { V::String(format!("text {i}")) })).collect() };
-                let mk = |e: &[(String, V)]| -> CredentialSubject { let mut s = CredentialSubject::default(); for (k, v) in e { s.0.insert(k.clone(), v.clone()); } s };
+                // through the public builder (`MakeCredentialAttributes::add`) where it can express the entry, else directly
+                let mk = |e: &[(String, V)]| -> CredentialSubject {
+                    let all_builder = e.iter().all(|(_, v)| !matches!(v, V::Bool(_)));
+                    if all_builder {
+                        let mut b = anoncreds::w3c::types::MakeCredentialAttributes::default();
+                        for (k, v) in e {
+                            match v { V::String(s) => b.add(k.clone(), s.clone()), V::Number(n) => b.add(k.clone(), n.to_string()), V::Bool(_) => {} }
+                        }
+                        let s: CredentialSubject = b.into();
+                        // the builder turns an integer string into a number: same encoding, the subject the issuer returns is what the model gets
+                        s
+                    } else {
+                        let mut s = CredentialSubject::default(); for (k, v) in e { s.0.insert(k.clone(), v.clone()); } s
+                    }
+                };
                 let sj = |e: &[(String, V)]| -> Value { let mut a: Vec<Value> = e.iter().map(|(k, v)| json!([k, match v { V::String(s) => json!(s), V::Number(n) => json!(n), V::Bool(b) => json!(b) }])).collect(); a.sort_by(|x, y| x[0].as_str().cmp(&y[0].as_str())); Value::Array(a) };
                 let mut issue_w = |cls: &str, offer: &CredentialOffer, oj: &Value, req: &CredentialRequest, rg: Value, e: Vec<(String, V)>, expect: Option<bool>, out: &mut Out, cases: &mut Cases| -> Option<anoncreds::data_types::w3c::credential::W3CCredential> {
                     // entries with the same key collapse in the map: the model gets what the library gets
@@ -1174,6 +1233,29 @@ pub fn c11(eng: &mut Engine, rng: &mut Rng, thorough: bool, out: &mut Out) -> Ca
                         cases.push((json!({"op":"process_w3c","fam":"c11.process_w3c","cls":cls,"cd":cdg,"sig":sigw(true),"subject":sj(&given),"sig_proof_ok":true,"meta":mg,"holder":h,"nt":true}), json!(ok)));
                     };
                     process_w("honest", &honest, &meta1, &m1, holder, di, Some(true), out, &mut cases);
+                    {
+                        let mut c = wc.clone();
+                        if w3c::prover::process_credential(&mut c, &meta1, &eng.cast.holders[holder], &d.cd, None).is_ok() {
+                            let reqj = json!({"nonce": format!("{}", 1000 + rng.below(1_000_000_000)), "name":"r","version":"1.0","requested_attributes": {"r0": {"name": names[0]}, "u0": {"name": names[names.len() - 1]}}, "requested_predicates": {}});
+                            let preq: PresentationRequest = serde_json::from_value(reqj).unwrap();
+                            let mut pc = PresentCredentials::default();
+                            {
+                                let mut x = pc.add_credential(&c, None, None);
+                                x.add_requested_attribute("r0", true);
+                                x.add_requested_attribute("u0", false);
+                            }
+                            let (schemas, cred_defs) = (w.schemas(), w.cred_defs());
+                            let v = match w3c::prover::create_presentation(&preq, pc, &eng.cast.holders[holder], &schemas, &cred_defs, None) {
+                                Ok(p) => w3c::verifier::verify_presentation(&p, &preq, &schemas, &cred_defs, None, None, None).unwrap_or(false),
+                                Err(_) => false,
+                            };
+                            out.count(&format!("c11:processed-presented:w3c:{v}"));
+                            out.oracle_only += 1;
+                            if !v {
+                                out.oracle_fail("a W3C credential that passed processing does not yield a verifiable presentation", &json!({"fam":"c11.process_w3c","sig":"","cls":"processed-presented"}), &Value::Null);
+                            }
+                        }
+                    }
                     process_w("other-link-secret", &honest, &meta1, &m1, 1 - holder, di, Some(false), out, &mut cases);
                     process_w("other-metadata", &honest, &meta2, &m2, holder, di, Some(false), out, &mut cases);
                     process_w("other-definition", &honest, &meta1, &m1, holder, oi, Some(false), out, &mut cases);
